@@ -180,6 +180,27 @@ Theorem C18_bare_answers_lose_nothing : forall w om,
 Proof. intros w om. split; [apply reconnect_omit_is_reconnect|apply reconnect_omit_untouched]. Qed.
 Print Assumptions C18_bare_answers_lose_nothing.
 
+(* --- ownership is only ever ended by the teardown of the environment or by a restart --------- *)
+
+(* In every world reachable from boot (any failover setting, any history) a task that is in the
+   roster, locked by a live environment [e], is still in the roster and locked by [e] after ANY
+   operation that is neither the teardown of [e] nor a restart - in particular after kill requests:
+   Cleanup, the Cleanup of a CreateEnvironment, and KillTasks with a list of ids that names stale,
+   dead or locked tasks ([OKillIds]: the regenerated killtasks_removes_unlisted = false - KillTasks
+   writes the roster with nothing but its kill list).  So the next reconciliation finds it in the
+   roster and spares it (C18_reconciliation_kills_only_unrostered). *)
+Theorem C18_ownership_survives : forall fo ops o t e,
+  tears_down o e = false ->
+  Own (after (boot fo) ops) t e -> Own (fst (step (after (boot fo) ops) o)) t e.
+Proof. exact ownership_survives. Qed.
+Print Assumptions C18_ownership_survives.
+
+(* [Own] is what the other theorems call owned / in the roster. *)
+Theorem C18_own_is_owned : forall w t e,
+  Own w t e -> in_roster t (w_roster w) = true /\ owned w t = true.
+Proof. exact own_in_roster. Qed.
+Print Assumptions C18_own_is_owned.
+
 (* What makes a roster task ACTIVE or INACTIVE (regenerated from updateTaskStatus): TASK_RUNNING
    activates, TASK_LOST and TASK_FAILED deactivate, no state in which the master has a task
    alive deactivates, and TASK_RUNNING is the only live state that activates.  So INACTIVE roster
@@ -235,6 +256,11 @@ Example C18_nonvacuous :
   (let b := fst (hstep (after (boot true) [OCreate 2]) (OReconnectOmit 3)) in
    map rt_env (w_roster b) = [Some 0; Some 0] /\ kills_of (snd (hstep b OCleanup)) = [] /\
    map mt_alive (w_master (fst (hstep b OCleanup))) = [true; true]) /\
+  (* two environments; a kill request names the task already killed with the second one, a task
+     locked by the first and an id nobody knows: nothing happens, the reconnection kills nothing *)
+  (let k := after (boot true) [OCreate 2; OCreate 1; ODestroy 1 false; OKillIds [2; 0; 9001]] in
+   map rt_id (w_roster k) = [0; 1] /\ map rt_env (w_roster k) = [Some 0; Some 0] /\
+   kills_of (snd (hstep k OReconnect)) = []) /\
   (* a restart whose reconciliation is lost: two SUBSCRIBEs, two RECONCILEs, the leftovers killed by
      the second; with the answers lost and NO further subscription they would survive *)
   (let v := after (boot true) [OCreate 2] in
